@@ -24,7 +24,9 @@ from props import c05_tlsmsg
 
 GENERATORS = ["c05_tables", "c05_tls"]
 DEPENDS = ["Frames", "ConnRecv", "FramesP", "ConnRecvP", "C05Tables(gen)", "StreamRecv", "RangeSet", "Base", "Tok", "C05",
-           "TlsParse", "TlsRecv", "TlsParseP", "TlsRecvP", "TlsSitesP", "C05Tls(gen)", "TlsDispatch(gen)", "Codec", "TlsCodec"]
+           "TlsParse", "TlsRecv", "TlsParseP", "TlsRecvP", "TlsSitesP", "C05Tls(gen)", "TlsDispatch(gen)", "Codec", "TlsCodec",
+           "ConnDgram", "ConnDgramP", "ConnClose", "ConnCloseP", "AfterCloseP", "Header", "HeaderProofs", "Varint", "Builder",
+           "BuilderProofs", "C13Consts(gen)", "Timers", "TimersSpec", "TimersP"]
 TRUSTED_BASE = [
     "extraction (ExtrOcamlBasic only; Z kept inductive) + coq/extract/driver.ml for running the model",
     "tools/gen/c05_tables.py (ast reader of __frame_handlers / enums; output is compared with the running "
@@ -39,8 +41,9 @@ TRUSTED_BASE = [
     "tools/gen/c05_tls.py + gen/TlsDispatch.v (ast readers) pin enums, dictionaries, default lists, the dispatch table and "
     "the raise-site skeleton of tls.py; harness/props/c05_tlsmsg.py reads the Context's private attributes and wraps "
     "tls.decode_public_key / tls.verify_certificate / Context._handle_reassembled_message to record oracle answers",
-    "frame-layer model (ConnRecv.v) still takes the TLS engine's answer in handshake states as an input (tls_oracle); "
-    "TlsRecv.crypto_deliver is proved separately and not yet substituted into ConnRecv.h_crypto",
+    "frame-layer model (ConnRecv.v) calls TlsRecv.crypto_deliver below the CRYPTO handler; in the frames tie the oracle records "
+    "of the TLS layer are recorded from the real connection's tls.Context (c05_tlsmsg.Recorder; the transport-parameter verdict "
+    "is the QuicConnectionError of the real _alpn_handler)",
 ]
 ASSUMPTIONS = [
     "tls_handle_message_total: wf_cfg (every advertised signature algorithm is Ed25519, Ed448 or a key of SIGNATURE_ALGORITHMS: "
@@ -49,9 +52,14 @@ ASSUMPTIONS = [
     "a Context that raised an Alert is dead: the connection closes and never feeds it again (receive_datagram returns on _close_pending)",
     "local configuration is not network input: certificate chain / handshake extensions fit the 4096-byte crypto buffers, the local "
     "private key can sign with the negotiated algorithm, application callbacks (session ticket fetcher / handler) return",
-    "receive_total_frames: the TLS oracle does not answer with an escaping exception (to_kind <> 3) -- "
-    "refuted for the pinned tls.py by the implementation oracle (findings T1-T4), holds for the patched tree on every generated message",
-    "AEAD/header protection are outside: the model starts from the decrypted payload (C02)",
+    "receive_total_tls: tls_ok (c_tls st) = wf_cfg + wf0 of the connection's tls.Context (the hypotheses of tls_handle_message_total; "
+    "re-established by the theorem itself for the state after the packet); no hypothesis about the TLS engine's answers is left",
+    "AEAD/header protection are outside (C02): decrypt_packet is an oracle per packet answering KeyUnavailableError / CryptoError / ANY plaintext; "
+    "receive_datagram_total quantifies over all answers",
+    "receive_datagram_total: dconn_ok = tls_ok + (_initialize() has run, or server in FIRSTFLIGHT) + (no _close_event while the gate is open): "
+    "Example dconn_ok_example; a client must have called connect() (API discipline, as in C09's first_op)",
+    "after_close_send_total: wf_cfg (lengths >= 0), crypto_fits (max_datagram_size <= 1500, the CryptoPair's scratch buffers), close event with "
+    "0 <= code, frame type < 2^62: Example close_send_hyps; holds for the tree with docs/C05-fix-10.patch (26d6ec4), refuted before (after_close_refuted)",
 ]
 
 EXN = {"AssertionError": 1, "IndexError": 2, "KeyError": 3, "UnicodeDecodeError": 4, "ValueError": 5, "TypeError": 6,
@@ -59,6 +67,7 @@ EXN = {"AssertionError": 1, "IndexError": 2, "KeyError": 3, "UnicodeDecodeError"
 EPOCH_NUM = {"initial": 0, "0rtt": 1, "handshake": 2, "1rtt": 3}
 V1 = 1
 V2 = 0x6B3343CF
+RETRY_SCID = bytes(range(0x60, 0x68))
 
 
 # ------------------------------------------------------------------------------------------
@@ -400,6 +409,10 @@ class Lab:
         elif k == "sh":        # ServerHello bytes -> client in first flight
             sh = bytes.fromhex(op[1])
             self.send_long(b"\x06" + varint(0) + varint(len(sh)) + sh, {})
+        elif k == "retry":
+            # ["retry", token_len, opts]: a Retry packet with a valid integrity tag (computable by anybody who saw the
+            # client's Initial) and a token of token_len bytes, to a client in first flight; its SCID is RETRY_SCID
+            self.send_retry(int(op[1]), dict(op[2]) if len(op) > 2 else {})
         elif k == "sh_nopump":  # ServerHello bytes -> client in first flight, datagrams_to_send() NOT called afterwards
             sh = bytes.fromhex(op[1])
             self.send_long(b"\x06" + varint(0) + varint(len(sh)) + sh, dict(op[2] if len(op) > 2 else {}, nopump=True))
@@ -422,6 +435,25 @@ class Lab:
         else:
             raise ValueError("unknown op %r" % (k,))
 
+    def send_retry(self, token_len, o):
+        from aioquic.quic.packet import get_retry_integrity_tag
+        pk = self.ch_pkt
+        version = o.get("version", V1)
+        tbits = 0 if version == V2 else 3
+        scid = RETRY_SCID
+        dcid = pk.scid if not o.get("wrong_dcid") else bytes(8)
+        body = bytes([0xC0 | (tbits << 4)]) + version.to_bytes(4, "big") + bytes([len(dcid)]) + dcid + bytes([len(scid)]) + scid
+        body += bytes(o.get("fill", 0x5A) for _ in range(token_len))
+        tag = get_retry_integrity_tag(body, pk.dcid, version=version if version in (V1, V2) else V1)
+        if o.get("bad_tag"):
+            tag = bytes(16)
+        data = body + tag
+        self.last_datagram = data
+        if o.get("nopump"):
+            self.subject.receive_datagram(data, self.peer_addr())
+        else:
+            self.pair.deliver_now(data, self.peer_addr(), self.subject)
+
     def send_long(self, payload, o):
         pk = self.ch_pkt
         if self.side == "server":
@@ -436,6 +468,8 @@ class Lab:
                 keycid = dcid
         if "scid" in o:
             scid = bytes.fromhex(o["scid"])
+        if "keycid" in o:
+            keycid = bytes.fromhex(o["keycid"])
         pkt = build_long(o.get("ptype", 0), dcid, scid, payload, keycid=keycid, is_client=is_client,
                          pn=o.get("pn", 0 if self.side == "server" else 1), version=o.get("version", V1),
                          token=bytes.fromhex(o.get("token", "")), reserved=o.get("reserved", 0),
@@ -615,7 +649,7 @@ def _recv_tokens(r):
     return t
 
 
-def snapshot_tokens(conn, epoch, dcid, tls_oracle):
+def snapshot_tokens(conn, epoch, dcid):
     from aioquic import tls
     streams = []
     for sid, s in conn._streams.items():
@@ -632,7 +666,7 @@ def snapshot_tokens(conn, epoch, dcid, tls_oracle):
          conn._local_max_stream_data_bidi_remote, conn._local_max_stream_data_uni,
          -1 if mdf is None else mdf, conn._host_cid_seq, ctx, conn._remote_active_connection_id_limit,
          0 if ps is None else ps, conn._peer_retire_prior_to, len(conn._retire_connection_ids),
-         conn._local_active_connection_id_limit, conn.tls.state.value] + list(tls_oracle)
+         conn._local_active_connection_id_limit]
 
     def lst(xs):
         xs = list(xs)
@@ -643,7 +677,6 @@ def snapshot_tokens(conn, epoch, dcid, tls_oracle):
     t += lst(sorted(conn._peer_cid_sequence_numbers))
     t += lst(int.from_bytes(k, "big") for k in conn._local_challenges.keys())
     t += lst(sorted(conn._streams_finished))
-    t += lst(conn.tls._receive_buffer)
     t += lst(c.sequence_number for c in conn._host_cids
              if not c.was_sent and c.sequence_number > getattr(conn, "_host_cid_seq_sent", -1))
     t += [len(streams)]
@@ -651,10 +684,13 @@ def snapshot_tokens(conn, epoch, dcid, tls_oracle):
         t += s
     for ep in (tls.Epoch.INITIAL, tls.Epoch.HANDSHAKE, tls.Epoch.ONE_RTT):
         t += _recv_tokens(conn._crypto_streams[ep].receiver)
+    # self.tls: configuration + state tokens of the TLS message-layer model (TlsRecv.rd_cfg_ctx)
+    t += c05_tlsmsg.snapshot(conn.tls)
     return t
 
 
 _CACHE = {}
+FR_TLS = collections.Counter()      # how often the frames tie reached the TLS message layer
 
 
 def _key(case):
@@ -680,13 +716,21 @@ def frames_observe(case):
     if "dcid_index" in opts:
         cids = [c.cid for c in conn._host_cids]
         dcid = cids[opts["dcid_index"] % len(cids)]
-    # TLS oracle for handshake states: taken from the real run afterwards (documented input of the model)
+    # Oracle answers of the TLS layer (cryptography / X.509 / callbacks): recorded per handle_message call and per
+    # dispatched message from the real run (c05_tlsmsg.Recorder), documented inputs of the model
     pre = None
+    rec = None
     if conn._close_event is None and not conn._close_pending:
         pre = [patched, EPOCH_NUM[epoch], 0, int(bool(opts.get("reserved")))]
-        snap = snapshot_tokens(conn, EPOCH_NUM[epoch], dcid, [0, 0, 0])
+        snap = snapshot_tokens(conn, EPOCH_NUM[epoch], dcid)
+        from aioquic import tls as _tls
+        rec = c05_tlsmsg.Recorder(_tls, conn.tls, wrap_callbacks=True).install()
     nraised0 = len(subj.raised)
-    lab.send_packet(epoch, payload, opts)
+    try:
+        lab.send_packet(epoch, payload, opts)
+    finally:
+        if rec is not None:
+            rec.uninstall()
     new_raised = subj.raised[nraised0:]
     recv = [c for c in new_raised if c.name == "receive_datagram"]
     evs = [e for e in subj.qlog_events() if e["name"] == "transport:packet_received"]
@@ -694,29 +738,27 @@ def frames_observe(case):
     # outcome from public observables: exception class, else the ConnectionTerminated event
     if recv:
         exp = [3, EXN.get(recv[0].exc_type, 9), 0, nlog]
-        tls_or = [3, EXN.get(recv[0].exc_type, 9), 0]
     else:
         lab.settle(max_time=30.0)
         term = subj.terminated
         closes = lab.sent_closes()
         if term is None or (not closes and term.reason_phrase == "Idle timeout" and int(term.error_code) == 1):
             exp = [0, 0, 0, nlog]
-            tls_or = [0, 0, 0]
         else:
             ft = -1 if term.frame_type is None else int(term.frame_type)
             exp = [1 if closes else 2, int(term.error_code), ft, nlog]
-            code = int(term.error_code)
-            tls_or = [1, code - 0x100, 0] if (closes and 0x100 <= code <= 0x1FF) else ([2, code, ft] if closes else [0, 0, 0])
     later = [c for c in subj.raised[nraised0:] if c.name != "receive_datagram"]
     tokens = None
     if pre is not None and len(snap) > 60000:
         pre = None          # a huge reassembly buffer (far-ahead CRYPTO data in a prefix packet): not run through the model
     if pre is not None:
-        hs_state = conn.tls.state.value not in (7, 12) if hasattr(conn, "tls") else False
-        snap2 = list(snap)
-        if case.get("tls_oracle"):
-            snap2[16:19] = tls_or
-        tokens = [0] + pre + snap2 + [len(payload)] + list(payload)
+        FR_TLS["cases_with_handle_message"] += 1 if rec.calls else 0
+        FR_TLS["handle_message_calls"] += len(rec.calls)
+        FR_TLS["dispatched_messages"] += sum(len(r) for r in rec.calls)
+        orcs = [len(rec.calls)]
+        for records in rec.calls:
+            orcs += c05_tlsmsg.orc_tokens(records)
+        tokens = [0] + pre + snap + orcs + [len(payload)] + list(payload)
     res = (tokens, exp, [(c.name, c.exc_type, exc_site(c.exc)) for c in later])
     if len(_CACHE) > 4000:
         _CACHE.clear()
@@ -737,6 +779,412 @@ def frames_impl(case):
 TREE_PATCHED = {}
 
 
+# ------------------------------------------------------------------------------------------
+# datagram tie: ConnDgram.receive_datagram (raw bytes -> header parser -> decisions -> decryption oracle -> frame loop,
+# coalesced packets) against the real receive_datagram()
+STATE_NUM = {"FIRSTFLIGHT": 0, "CONNECTED": 1, "CLOSING": 2, "DRAINING": 3, "TERMINATED": 4}
+TRIGGER_NUM = {"header_parse_error": 10, "initial_packet_datagram_too_small": 21, "unknown_connection_id": 22,
+               "unsupported_version": 24, "key_unavailable": 41, "payload_decrypt_error": 42}
+
+
+def _tls_tokens_for(conn):
+    """cfg + ctx tokens of self.tls; before _initialize() (fresh server): those of the Context _initialize() will build"""
+    from aioquic import tls
+    if getattr(conn, "tls", None) is not None:
+        return c05_tlsmsg.snapshot(conn.tls)
+    c = conn._configuration
+    ctx = tls.Context(alpn_protocols=c.alpn_protocols, cadata=c.cadata, cafile=c.cafile, capath=c.capath,
+                      cipher_suites=conn.configuration.cipher_suites, is_client=conn._is_client,
+                      max_early_data=None if conn._is_client else 0xFFFFFFFF, server_name=c.server_name, verify_mode=c.verify_mode)
+    ctx.certificate, ctx.certificate_chain, ctx.certificate_private_key = c.certificate, c.certificate_chain, c.private_key
+    ctx.alpn_cb = conn._alpn_handler
+    if conn._session_ticket_fetcher is not None:
+        ctx.get_session_ticket_cb = conn._session_ticket_fetcher
+    if conn._session_ticket_handler is not None:
+        ctx.new_session_ticket_cb = conn._handle_session_ticket
+    return c05_tlsmsg.snapshot(ctx)
+
+
+def dgram_snapshot(conn):
+    from aioquic import tls
+    init = getattr(conn, "tls", None) is not None
+    hseq = -1
+    for c in conn._host_cids:
+        if c.cid == conn.host_cid:
+            hseq = c.sequence_number
+    t = [STATE_NUM[conn._state.name], int(conn._close_pending), int(init), conn._configuration.connection_id_length,
+         conn._version or 0, int(conn._version_negotiated_incompatible), conn._retry_count, hseq]
+    vs = list(conn._configuration.supported_versions)
+    t += [len(vs)] + vs
+    if init:
+        full = snapshot_tokens(conn, 0, b"")
+    else:
+        # no streams / CRYPTO receivers / tls yet: the scalar part, empty lists, three empty receivers
+        mdf = conn._configuration.max_datagram_frame_size
+        full = [int(conn._is_client), conn._local_max_data.used, conn._local_max_data.value,
+                conn._local_max_streams_bidi.value, conn._local_max_streams_uni.value,
+                conn._local_max_stream_data_bidi_remote, conn._local_max_stream_data_uni,
+                -1 if mdf is None else mdf, conn._host_cid_seq, -1, conn._remote_active_connection_id_limit,
+                0, conn._peer_retire_prior_to, len(conn._retire_connection_ids), conn._local_active_connection_id_limit]
+        full += [len(conn._host_cids)] + [c.sequence_number for c in conn._host_cids] + [0, 0, 0, 0, 0] + [0]
+        full += [0, 0, 0, 0] * 3
+        full += _tls_tokens_for(conn)
+    return t + full
+
+
+def build_dgram(lab, parts):
+    out = b""
+    for part in parts:
+        k = part[0]
+        if k == "raw":
+            out += bytes.fromhex(part[1])
+        elif k == "pkt":
+            o = dict(part[3]) if len(part) > 3 else {}
+            kw = {}
+            if o.get("reserved"):
+                kw["reserved_bits"] = o["reserved"]
+            if "dcid_index" in o:
+                cids = [c.cid for c in lab.subject.conn._host_cids]
+                kw["dcid"] = cids[o["dcid_index"] % len(cids)]
+            if "dcid" in o:
+                kw["dcid"] = bytes.fromhex(o["dcid"])
+            payload = bytes.fromhex(part[2])
+            if len(payload) < 4:
+                kw["pn_len"] = 4
+            try:
+                pkt = lab.puppet.build_packet(part[1], payload, **kw)
+            except ValueError:
+                pkt = b""
+            if o.get("corrupt") and pkt:
+                pkt = pkt[:-1] + bytes([pkt[-1] ^ 0x55])
+            if o.get("cut") and pkt:
+                pkt = pkt[:max(1, len(pkt) - o["cut"])]
+            out += pkt
+        elif k == "long":
+            o = dict(part[2]) if len(part) > 2 else {}
+            pk = lab.ch_pkt
+            if lab.side == "server":
+                dcid, scid, keycid, is_client = pk.dcid, pk.scid, pk.dcid, True
+            else:
+                dcid, scid, keycid, is_client = pk.scid, bytes(range(0x50, 0x58)), pk.dcid, False
+            if "dcid" in o:
+                dcid = bytes.fromhex(o["dcid"])
+            pkt = build_long(o.get("ptype", 0), dcid, scid, bytes.fromhex(part[1]), keycid=keycid, is_client=is_client,
+                             pn=o.get("pn", 0 if lab.side == "server" else 1), version=o.get("version", V1),
+                             reserved=o.get("reserved", 0), pn_len=o.get("pn_len", 2), length_override=o.get("length"))
+            if o.get("corrupt"):
+                pkt = pkt[:-1] + bytes([pkt[-1] ^ 0x55])
+            out += pkt
+        elif k == "pad":
+            if len(out) < part[1]:
+                out += bytes(part[1] - len(out))
+        elif k == "vn":
+            pk = lab.ch_pkt
+            out += bytes([0x80 | part[2]]) + bytes(4) + bytes([len(pk.scid)]) + pk.scid + bytes([len(pk.dcid)]) + pk.dcid + \
+                b"".join(v.to_bytes(4, "big") for v in part[1])
+    return out
+
+
+def dgram_observe(case):
+    """-> (tokens, expected)"""
+    k = _key(case)
+    if k in _CACHE:
+        return _CACHE[k]
+    from aioquic import tls
+    from aioquic.buffer import Buffer
+    from aioquic.quic import crypto as qc
+    from aioquic.quic.packet import get_retry_integrity_tag, pull_quic_header
+    lab = Lab(case["spec"])
+    for op in case["ops"]:
+        lab.apply(op)
+    subj = lab.subject
+    conn = subj.conn
+    if case.get("retry") is not None:
+        # a Retry datagram is built by the Lab (it needs the client's genuine Initial): capture instead of delivering
+        r = case["retry"]
+        saved = subj.receive_datagram
+        box = []
+        subj.receive_datagram = lambda d, a: box.append(d)
+        try:
+            lab.send_retry(r[0], dict(r[1], nopump=True))
+        finally:
+            del subj.receive_datagram
+        data = box[0] + bytes.fromhex(case.get("trailer", ""))
+    else:
+        data = build_dgram(lab, case["parts"])
+    patched = int(TREE_PATCHED.get("firstflight", 1))
+    snap = dgram_snapshot(conn)
+    had_event = conn._close_event is not None      # the model's snapshot carries no earlier close event: gate only
+    # walk over the headers as the loop will (offsets only): which host CID each packet addresses; verdict on a Retry
+    hdrs = []
+    buf = Buffer(data=data)
+    host = {c.cid: c.sequence_number for c in conn._host_cids}
+    while not buf.eof() and len(hdrs) < 40:
+        start = buf.tell()
+        try:
+            h = pull_quic_header(buf, host_cid_length=conn._configuration.connection_id_length)
+        except ValueError:
+            break
+        rok = 0
+        if h.packet_type.name == "RETRY":
+            try:
+                tag = get_retry_integrity_tag(buf.data_slice(start, buf.tell() - 16), conn._peer_cid.cid, version=h.version)
+                rok = int(h.destination_cid == conn.host_cid and h.integrity_tag == tag)
+            except Exception:
+                rok = 0
+        hdrs.append([host.get(h.destination_cid, -1), rok, h.packet_type.name])
+        if start + h.packet_length > len(data) or h.packet_length <= 0:
+            break
+        buf.seek(start + h.packet_length)
+    dec, marks = [], []
+    rec = c05_tlsmsg.ClassRecorder(tls, conn)
+    real_dec = qc.CryptoPair.decrypt_packet
+
+    def decrypt(self, packet, encrypted_offset, expected_packet_number):
+        i = len(dec)
+        dec.append(None)
+        marks.append(len(rec.calls))
+        try:
+            r = real_dec(self, packet, encrypted_offset, expected_packet_number)
+        except qc.KeyUnavailableError:
+            dec[i] = (1, 0, b"")
+            raise
+        except qc.CryptoError:
+            dec[i] = (2, 0, b"")
+            raise
+        ph, payload, pn = r
+        mask = 0x0C if (ph[0] & 0x80) else 0x18
+        dec[i] = (0, int(bool(ph[0] & mask)), bytes(payload))
+        return r
+
+    ne0 = len(subj.qlog_events())
+    nr0 = len(subj.raised)
+    rec.install()
+    qc.CryptoPair.decrypt_packet = decrypt
+    try:
+        subj.receive_datagram(data, lab.peer_addr())
+    finally:
+        qc.CryptoPair.decrypt_packet = real_dec
+        rec.uninstall()
+    marks.append(len(rec.calls))
+    recv = [c for c in subj.raised[nr0:] if c.name == "receive_datagram"]
+    # expected
+    trace = []
+    for e in subj.qlog_events()[ne0:]:
+        if e["name"] == "transport:packet_dropped":
+            trig = e["data"]["trigger"]
+            if trig == "unexpected_packet":
+                idx = len(trace)
+                ptn = hdrs[idx][2] if idx < len(hdrs) else ""
+                trace.append(30 if ptn in ("RETRY", "VERSION_NEGOTIATION") else 26)
+            else:
+                trace.append(TRIGGER_NUM.get(trig, 99))
+        elif e["name"] == "transport:packet_received":
+            if e["data"]["header"].get("packet_type") in ("retry", "version_negotiation"):
+                trace.append(30)
+            else:
+                trace.append(100 + len(e["data"].get("frames", [])))
+    conn = subj.conn
+    if recv:
+        exp = [3, EXN.get(recv[0].exc_type, 9), 0, 0, 0, 0, 0]
+    else:
+        ev = conn._close_event
+        if ev is None or had_event:
+            cl = [0, 0, 0]
+        else:
+            by_peer = conn._state.name == "DRAINING"
+            cl = [2 if by_peer else 1, int(ev.error_code), -1 if ev.frame_type is None else int(ev.frame_type)]
+        exp = [0, 0, STATE_NUM[conn._state.name], int(conn._close_pending)] + cl
+    # a VN packet that is ignored because it lists our version is silent in qlog (only a log warning): the model says 30
+    if not recv and any(h[2] == "VERSION_NEGOTIATION" for h in hdrs) and not trace:
+        trace = [30]
+    exp += [len(trace)] + trace
+    orcs = [len(hdrs)]
+    for i, (seq, rok, _) in enumerate(hdrs):
+        d = dec[i] if i < len(dec) and dec[i] is not None else (2, 0, b"")
+        calls = rec.calls[marks[i]:marks[i + 1]] if i + 1 < len(marks) else []
+        orcs += [seq, rok, d[0], d[1], len(d[2])] + list(d[2]) + [len(calls)]
+        for records in calls:
+            orcs += c05_tlsmsg.orc_tokens(records)
+    tokens = [patched] + snap + orcs + [len(data)] + list(data)
+    later_probs = None
+    res = (tokens, exp, lab)
+    if len(_CACHE) > 1500:
+        _CACHE.clear()
+    _CACHE[k] = res
+    return res
+
+
+def oracle_dgram(case):
+    tokens, exp, lab = dgram_observe(case)
+    lab.pair.pump(lab.subject)
+    lab.settle(max_time=20.0)
+    probs = judge(lab)
+    return probs[0] if probs else None
+
+
+def gen_dgram_cases(rng, n):
+    g = Gen(rng)
+    cases = []
+
+    def frames(epoch):
+        if epoch in ("initial", "handshake"):
+            pool = [0x00, 0x01, 0x02, 0x06, 0x1c, 0x08, 0x1e]
+        else:
+            pool = FRAME_TYPES
+        return b"".join(g.frame(rng.choice(pool)) for _ in range(rng.randint(1, 3))).hex()
+
+    def garbage():
+        n_ = rng.choice([1, 2, 5, 20, 21, 40, 60])
+        d = bytes(rng.randrange(256) for _ in range(n_))
+        if rng.random() < 0.6:
+            d = bytes([rng.choice([0x40, 0x43, 0xC0, 0xC3, 0xD0, 0xE0, 0xF0, 0x80, 0x00, 0x3f])]) + d[1:]
+        return d.hex()
+
+    combos = [("client", "connected"), ("server", "connected"), ("client", "handshake"), ("server", "handshake"),
+              ("client", "keyupdated"), ("server", "keyupdated")]
+    for i in range(n):
+        x = rng.random()
+        if x < 0.62:
+            side, state = rng.choice(combos)
+            epochs = ["1rtt"] if state != "handshake" else ["initial", "handshake"]
+            parts = []
+            for _ in range(rng.randint(1, 4)):
+                y = rng.random()
+                ep = rng.choice(epochs + (["initial", "handshake"] if y < 0.25 else []))
+                o = {}
+                z = rng.random()
+                if z < 0.12:
+                    o["corrupt"] = 1
+                elif z < 0.18:
+                    o["reserved"] = rng.choice([1, 2, 3])
+                elif z < 0.26:
+                    o["dcid"] = bytes(rng.randrange(256) for _ in range(8)).hex()
+                elif z < 0.34 and side == "server":
+                    o["dcid_index"] = rng.randrange(8)
+                elif z < 0.38:
+                    o["cut"] = rng.choice([1, 5, 17])
+                parts.append(["pkt", ep, frames(ep), o])
+                if ep == "1rtt":
+                    break       # a short header packet extends to the end of the datagram
+            if rng.random() < 0.25:
+                parts.insert(rng.randrange(len(parts) + 1), ["raw", garbage()])
+            if rng.random() < 0.2:
+                parts.append(["raw", bytes(rng.choice([1, 30])).hex()])
+            ops = []
+            if rng.random() < 0.1 and state != "handshake":
+                ops.append(["pkt", "1rtt", g.frame(rng.choice([0x18, 0x08, 0x0A])).hex()])
+            cases.append({"spec": spec(side, state, 100 + rng.randrange(6)), "ops": ops, "parts": parts})
+        elif x < 0.8:
+            # server first flight: Initial packets under the public Initial keys, coalesced / padded / too small / other types
+            parts = []
+            for _ in range(rng.randint(1, 3)):
+                o = {"ptype": rng.choice([0, 0, 0, 1, 2]), "version": rng.choice([V1, V1, V2, 0x1A2A3A4A])}
+                if rng.random() < 0.15:
+                    o["corrupt"] = 1
+                if rng.random() < 0.1:
+                    o["reserved"] = 1
+                if rng.random() < 0.15:
+                    o["dcid"] = bytes(rng.randrange(256) for _ in range(rng.choice([8, 8, 20]))).hex()
+                pl = rng.choice(["01", "00", "", "1f", frames("initial"), (b"\x06" + varint(0) + varint(4) + b"\x01\x00\x00\x00").hex()])
+                parts.append(["long", pl, o])
+            if rng.random() < 0.2:
+                parts.insert(rng.randrange(len(parts) + 1), ["raw", garbage()])
+            if rng.random() < 0.8:
+                parts.append(["pad", rng.choice([1199, 1200, 1200, 1300])])
+            cases.append({"spec": spec("server", "firstflight", 200 + rng.randrange(4)), "ops": [], "parts": parts})
+        elif x < 0.9:
+            # client first flight: server Initial packets, Version Negotiation
+            if rng.random() < 0.5:
+                vs = rng.choice([[V1], [V2], [0x1A2A3A4A], [], [V2, V1], [0xAABBCCDD, V2]])
+                parts = [["vn", vs, rng.randrange(128)]]
+                if rng.random() < 0.3:
+                    parts.append(["raw", garbage()])
+            else:
+                parts = [["long", rng.choice(["01", "1f", frames("initial")]), {"version": rng.choice([V1, V1, V2])}]
+                         for _ in range(rng.randint(1, 2))]
+            cases.append({"spec": spec("client", "firstflight", 200 + rng.randrange(4)), "ops": [], "parts": parts})
+        else:
+            ro = {}
+            y = rng.random()
+            if y < 0.2:
+                ro["bad_tag"] = 1
+            elif y < 0.35:
+                ro["wrong_dcid"] = 1
+            elif y < 0.45:
+                ro["version"] = V2
+            cases.append({"spec": spec("client", "firstflight", 200 + rng.randrange(4)), "ops": [], "parts": [],
+                          "retry": [rng.choice([0, 1, 15, 16, 17, 100, 1131, 1300]), ro],
+                          "trailer": rng.choice(["", "", "00", garbage()])})
+    return cases
+
+
+# ------------------------------------------------------------------------------------------
+# close-branch tie: ConnClose.close_send (sizes, on C13's builder model) against the real datagrams_to_send()
+def close_observe(case):
+    """case: {"side", "state": firstflight | connected, "token": n, "mds": n, "code", "ft": int | None, "reason": n, "ascii": bool}
+    -> (tokens, expected [outcome, ndatagrams, lengths...])"""
+    k = _key(case)
+    if k in _CACHE:
+        return _CACHE[k]
+    from aioquic.quic.configuration import QuicConfiguration
+    from aioquic.quic.connection import QuicConnection
+    from aioquic import tls
+    if case["state"] == "firstflight":
+        cfg = QuicConfiguration(is_client=True, alpn_protocols=["h3"], max_datagram_size=case["mds"])
+        conn = QuicConnection(configuration=cfg)
+        conn.connect(("10.0.0.1", 4433), now=0.0)
+        conn.datagrams_to_send(now=0.0)
+        conn._peer_token = bytes(case["token"])      # what _receive_retry_packet stores (header.token)
+    else:
+        lab = Lab(spec(case["side"], "connected", 100 + case.get("seed", 0)))
+        conn = lab.subject.conn
+    reason = ("r" if case.get("ascii", True) else "\u00e9") * case["reason"]
+    conn.close(error_code=case["code"], frame_type=case["ft"], reason_phrase=reason)
+    keys = [int(conn._handshake_confirmed)] + [int(conn._cryptos[e].send.is_valid())
+                                               for e in (tls.Epoch.INITIAL, tls.Epoch.HANDSHAKE, tls.Epoch.ONE_RTT)]
+    tokens = [int(TREE_PATCHED.get("retry_close", 1)), int(conn._is_client), conn._max_datagram_size, len(conn._peer_cid.cid),
+              len(conn.host_cid), len(conn._peer_token)] + keys + [case["code"]] + \
+             ([0] if case["ft"] is None else [1, case["ft"]]) + [len(reason.encode("utf8")), case.get("slack", 0)]
+    try:
+        out = conn.datagrams_to_send(now=1.0)
+        exp = [0, len(out)] + [len(d) for d, _ in out]
+    except Exception as e:  # noqa: BLE001 -- the observable is the exception class
+        exp = [{"QuicPacketBuilderStop": 1, "BufferWriteError": 2, "AssertionError": 3, "AttributeError": 4,
+                "ValueError": 5, "CryptoError": 6}.get(type(e).__name__, 9), 0]
+    res = (tokens, exp)
+    _CACHE[k] = res
+    return res
+
+
+def oracle_close(case):
+    _, exp = close_observe(case)
+    if exp[0] != 0:
+        name = {1: "QuicPacketBuilderStop", 2: "BufferWriteError", 3: "AssertionError", 4: "AttributeError", 5: "ValueError",
+                6: "CryptoError"}.get(exp[0], "?")
+        return ("%s escaped datagrams_to_send() (close branch) [token %s, reason %s]" % (name, case.get("token"), case["reason"]),
+                {"exception": name, "site": "start_packet"})
+    return None
+
+
+def gen_close_cases(rng, n):
+    cases = []
+    toks = [0, 1, 16, 63, 64, 500, 1100, 1129, 1130, 1131, 1139, 1140, 1155, 1156, 1157, 1200, 1300, 1452, 3000]
+    for i in range(n):
+        x = rng.random()
+        ft = rng.choice([None, None, 0, 6, 0x1f, 0x30, 16383, 16384, (1 << 30), (1 << 62) - 1])
+        code = rng.choice([0, 1, 7, 10, 63, 64, 0x100, 0x128, 16383, 16384, (1 << 30) - 1, 1 << 30, (1 << 62) - 1])
+        reason = rng.choice([0, 1, 18, 100, 1000, 1100, 1128, 1129, 1130, 1150, 1200, 2000])
+        if x < 0.7:
+            mds = rng.choice([1200, 1200, 1280, 1350, 1452, 1500])
+            cases.append({"side": "client", "state": "firstflight", "token": rng.choice(toks + [mds - 45, mds - 70, mds - 29, mds - 30]),
+                          "mds": mds, "code": code, "ft": ft, "reason": reason, "ascii": reason >= 1000 or rng.random() < 0.8})
+        else:
+            cases.append({"side": rng.choice(["client", "server"]), "state": "connected", "seed": rng.randrange(4), "code": code,
+                          "ft": ft, "reason": reason, "ascii": reason >= 1000 or rng.random() < 0.8})
+    return cases
+
+
 def detect_patches():
     """Which of the documented fixes does the tree under test carry?  Decided by running the minimal
     witnesses of docs/C05.md (the model's [patched] flag follows the tree so that the tie holds on both)."""
@@ -748,6 +1196,11 @@ def detect_patches():
             res[name] = 0 if probs else 1
         except Exception:
             res[name] = 0
+    try:
+        _, probs = run_ops(w["retry_token_close"])
+        res["retry_close"] = 0 if probs else 1
+    except Exception:
+        res["retry_close"] = 0
     TREE_PATCHED.update(res)
     return res
 
@@ -844,7 +1297,6 @@ def gen_frame_cases(rng, n):
             g = Gen(rng)
             pre = [g.frame(rng.choice([0x08, 0x0A, 0x0B, 0x0E, 0x0F, 0x04, 0x18, 0x19, 0x1A])) for _ in range(rng.randint(1, 3))]
             c["ops"].append(["pkt", "1rtt", b"".join(pre).hex()])
-        c["tls_oracle"] = 1
         cases.append(c)
     # directed part: state-dependent checks (final size, flow control, stream limits, connection IDs)
     g = Gen(rng)
@@ -863,7 +1315,7 @@ def gen_frame_cases(rng, n):
         peer_ids = [0, 4, 8, 2, 6, 400, 512, 516] if side == "server" else [1, 5, 9, 3, 7, 401, 513, 517]
         own_ids = [1, 5, 3] if side == "server" else [0, 4, 2]
         c = {"spec": spec(side, rng.choice(["connected", "connected", "keyupdated"]), 100 + rng.randrange(8)), "ops": [],
-             "epoch": "1rtt", "opts": {}, "tls_oracle": 1}
+             "epoch": "1rtt", "opts": {}}
         x = rng.random()
         if x < 0.6:
             sid = rng.choice(peer_ids + peer_ids + own_ids)
@@ -922,6 +1374,28 @@ def gen_frame_cases(rng, n):
                 fr.reverse()
             c["frames"] = [f.hex() for f in fr]
         cases.append(c)
+    # CRYPTO in the Handshake epoch while the handshake is in progress: grammar-built TLS messages reach the message layer
+    # below the frame handler (client: waiting for EncryptedExtensions; server: waiting for the client's Finished)
+    for i in range(max(60, n // 12)):
+        side = rng.choice(["client", "server"])
+        types = [8, 8, 8, 11, 13, 15, 20, 4, 2] if side == "client" else [20, 20, 11, 15, 1, 4, 8]
+        msgs = b""
+        for _ in range(rng.choice([1, 1, 2, 3])):
+            t = rng.choice(types)
+            msgs += c05_tlsmsg.hello_grammar(rng, t == 1) if t in (1, 2) else c05_tlsmsg.other_grammar(rng, t)
+        if rng.random() < 0.15:
+            msgs = c05_tlsmsg.mutate(rng, msgs)
+        msgs = msgs[:1000]
+        cut = rng.randrange(len(msgs) + 1)
+        fr = [b"\x06" + varint(0) + varint(cut) + msgs[:cut]]
+        if rng.random() < 0.6:
+            fr.append(b"\x06" + varint(cut) + varint(len(msgs) - cut) + msgs[cut:])
+        if rng.random() < 0.2:
+            fr.reverse()
+        if rng.random() < 0.3:
+            fr.append(g.frame(rng.choice([0x00, 0x01, 0x02, 0x1c])))
+        cases.append({"spec": spec(side, "handshake", 100 + rng.randrange(8)), "ops": [], "epoch": "handshake",
+                      "frames": [f.hex() for f in fr], "opts": {}})
     return cases
 
 
@@ -1360,6 +1834,11 @@ def _w_ack():
     return {"spec": spec("client", "connected", 33), "ops": ops}
 
 
+def _w_retry(n, bad="1f"):
+    o = {"keycid": RETRY_SCID.hex(), "scid": RETRY_SCID.hex(), "pn": 1}
+    return {"spec": spec("client", "firstflight", 34), "ops": [["retry", n], ["long", bad, o], ["adv", 0.05]]}
+
+
 WITNESSES = {
     "firstflight": {"spec": spec("server", "firstflight", 30), "ops": [["dg", (b"\x40" + bytes(30)).hex()]]},
     "firstflight_0rtt": {"spec": spec("server", "firstflight", 30),
@@ -1368,6 +1847,10 @@ WITNESSES = {
     "ncid": _w_ncid(),
     "ack_ranges": _w_ack(),
     "close_reason": {"spec": spec("client", "evilcert", 505, sans=14, san_len=50), "ops": [["run"]]},
+    # R1: Retry with an oversized token, then an Initial packet (keys derive from the Retry's SCID) with an unknown frame type:
+    # the close branch of datagrams_to_send() raises QuicPacketBuilderStop (start_packet / start_frame)
+    "retry_token_close": _w_retry(1300),
+    "retry_token_close_frame": _w_retry(1140),
 }
 
 
@@ -1389,6 +1872,15 @@ def run(ctx):
             reported[key] = True
             ctx.violation("impl-violation", "%s: %s" % (suite, what), corr._short(case, 6000), signature=sig)
 
+    import time as _time
+    _t = [_time.time()]
+    stats["phase_s"] = {}
+
+    def phase(name):
+        now = _time.time()
+        stats["phase_s"][name] = round(now - _t[0], 1)
+        _t[0] = now
+
     patches = detect_patches()
     stats["tree_carries_fix"] = dict(patches)
 
@@ -1401,6 +1893,7 @@ def run(ctx):
         _, probs = run_ops(case)
         report(probs, case, "corpus")
 
+    phase("witnesses")
     # 1. model ties
     fr = corr.Suite(ctx, "frames", "exec_c05", frames_encode, frames_impl, None,
                     lambda c: c["frames"], lambda c, fs: dict(c, frames=fs),
@@ -1425,6 +1918,22 @@ def run(ctx):
     tm = corr.Suite(ctx, "tlsmsg", "exec_tlsrecv", c05_tlsmsg.encode, c05_tlsmsg.impl, None, None, None,
                     nontrivial=lambda c, out: bool(c.get("data") or c.get("genuine")), opname=None)
     tm.oracle = once(lambda c: c05_tlsmsg.oracle(c, exc_site))
+    cl = corr.Suite(ctx, "close", "exec_close", lambda c: close_observe(c)[0], lambda c: close_observe(c)[1], None, None, None,
+                    nontrivial=lambda c, out: True)
+    cl.oracle = once(oracle_close)
+    cl.run(corr.load_corpus("C05", "close"), "corpus")
+    cl.run(gen_close_cases(rng, ctx.n(250, 6000)))
+    _CACHE.clear()
+    dg = corr.Suite(ctx, "dgram", "exec_dgram", lambda c: dgram_observe(c)[0], lambda c: dgram_observe(c)[1], None, None, None,
+                    nontrivial=lambda c, out: len(out) > 8)
+    dg.oracle = once(oracle_dgram)
+    dg.run(corr.load_corpus("C05", "dgram"), "corpus")
+    dcases = gen_dgram_cases(rng, ctx.n(600, 12000))
+    for i in range(0, len(dcases), 300):
+        dg.run(dcases[i:i + 300])
+        _CACHE.clear()
+    stats["datagrams"] += len(dcases)
+    phase("close+dgram ties")
     fr.run(corr.load_corpus("C05", "frames"), "corpus")
     hd.run(corr.load_corpus("C05", "header"), "corpus")
     fcases = gen_frame_cases(rng, ctx.n(5000, 60000))
@@ -1432,6 +1941,7 @@ def run(ctx):
         fr.run(fcases[i:i + 1000])
         _CACHE.clear()
     stats["protected_packets"] += sum(1 + len(c["ops"]) for c in fcases)
+    phase("frames tie")
     tm.run(corr.load_corpus("C05", "tlsmsg"), "corpus")
     tcases = c05_tlsmsg.gen_cases(rng, ctx.n(2500, 40000))
     for i in range(0, len(tcases), 1500):
@@ -1442,6 +1952,7 @@ def run(ctx):
             tm.stats["outcome_histogram"][json.dumps(c05_tlsmsg.impl(c)[:2])] += 1
         c05_tlsmsg._OBS.clear()
     stats["tls_messages"] += len(tcases)
+    phase("tlsmsg tie")
     hcases = gen_header_cases(rng, ctx.n(600, 6000))
     hd.run(hcases)
     _CACHE.clear()
@@ -1450,22 +1961,33 @@ def run(ctx):
         for k in list(s.stats["outcome_histogram"]):
             pass
 
+    phase("header tie")
     # 2. (a) datagram fuzz in every coarse state
     run_datagram_fuzz(ctx, rng, ctx.n(48, 600), ctx.n(250, 400), stats, report)
+    phase("datagram fuzz")
 
     # 3. (b) multi-packet sessions: many grammar packets per connection, all epochs with keys, timers in between
     run_sessions(ctx, rng, ctx.n(60, 900), stats, report)
+    phase("sessions")
 
     # 3b. packet-number / ACK-of-ACK games by a key-holding peer
     run_ack_games(ctx, rng, ctx.n(120, 1600), stats, report)
+    phase("ack games")
 
     # 4. (c) hostile TLS
     run_tls(ctx, rng, stats, report)
 
+    # 5. Retry packets with token sizes around what an Initial header can carry, followed by something that makes the
+    #    client close (or by the application's own close()): the close branch of datagrams_to_send (finding R1)
+    phase("hostile tls")
+    run_retry(ctx, rng, stats, report)
+    phase("retry worlds")
+
+    stats["frames_tls_layer"] = dict(FR_TLS)
     extra = {"volume": {k: (dict(v) if isinstance(v, collections.Counter) else v) for k, v in stats.items()},
              "packets_total": stats["datagrams"] + stats["protected_packets"] + stats["tls_messages"]}
     cov = corr.merge_coverage(
-        [fr, hd, tm],
+        [fr, hd, tm, cl, dg],
         "frames: grammar-generated payloads (every frame type x boundary values x truncation at every byte x repetition x "
         "unknown types) in protected packets to client/server in connected / key-updated / handshake states, state snapshot "
         "taken from the real connection; header: header-grammar datagrams against the decision function; distinct = distinct "
@@ -1618,6 +2140,36 @@ def run_ack_games(ctx, rng, n, stats, report):
         probs = judge(lab)
         if probs:
             report(probs, {"spec": sp, "ops": ops}, "ack-games")
+
+
+def run_retry(ctx, rng, stats, report):
+    sizes = [0, 1, 16, 100, 600, 1100, 1129, 1130, 1131, 1140, 1150, 1155, 1156, 1200, 1300, 1452, 5000, 60000]
+    followups = [("bad_frame", "1f"), ("reserved", "01"), ("empty", ""), ("ccf", "1c0a0000"), ("api_close", None), ("none", None)]
+    n = 0
+    for size in sizes:
+        for name, payload in (followups if ctx.thorough else rng.sample(followups, 3)):
+            o = {"keycid": RETRY_SCID.hex(), "scid": RETRY_SCID.hex(), "pn": 1}
+            if name == "reserved":
+                o["reserved"] = 1
+            ropts = {}
+            x = rng.random()
+            if x < 0.1:
+                ropts["bad_tag"] = 1
+            elif x < 0.2:
+                ropts["wrong_dcid"] = 1
+            elif x < 0.3:
+                ropts["version"] = V2
+            ops = [["retry", size, ropts]]
+            if payload is not None:
+                ops.append(["long", payload, o])
+            elif name == "api_close":
+                ops.append(["api", "close"])
+            ops += [["adv", 0.05], ["adv", 1.0]]
+            case = {"spec": spec("client", "firstflight", 40 + rng.randrange(4)), "ops": ops}
+            _, probs = run_ops(case)
+            n += 1
+            report(probs, case, "retry-token:%d:%s" % (size, name))
+    stats["retry_worlds"] = n
 
 
 def run_tls(ctx, rng, stats, report):
